@@ -44,7 +44,7 @@ def tree_base():
 
 
 def examples(tier):
-    return 700 if tier == "quick" else 10000
+    return 2100 if tier == "quick" else 28000
 
 
 # ---------------------------------------------------------------- token classification
